@@ -1,6 +1,146 @@
 import PdeVerif.Json
+import PdeVerif.Model.PDEs
+import PdeVerif.Drv.C11
+/-
+Driver of the PDE-class model (C10).  Evaluates the definitions of `Model/PDEs.lean` - the ones
+the theorems of `Props/C10.lean` are about - with operators instantiated by data measured on
+py-pde's own operators (affine maps `A x + b`), exactly over `Rat` (or over `Float`).
+-/
 namespace PdeVerif.Drv.C10
-open Lean PdeVerif
+open Lean PdeVerif PdeVerif.Ex PdeVerif.PDEs PdeVerif.Drv.C11
 
-def handlers : List (String × Handler) := []
+section
+variable {K : Type} [Add K] [Sub K] [Mul K] [Div K] [Neg K] [NatCast K] [IntCast K] [Inhabited K]
+
+def vecFn (l : Array K) : Nat → K := fun i => l.getD i (zero : K)
+def matFn (m : Array (Array K)) : Nat → Nat → K := fun i j => (m.getD i #[]).getD j (zero : K)
+def tabulate (n : Nat) (f : Nat → K) : List K := (List.range n).map f
+
+/-- {"A": [[..]..], "b": [..]} -> affine operator; {"comps": [affine..]} -> sum of squares;
+{"values": [..]} -> the constant map (an operator result measured for the state itself) -/
+partial def opOfJson (num : Json → Except String K) (n : Nat) (j : Json) : Except String (Op Nat K) := do
+  match fldOpt j "values" with
+  | some v =>
+    let l ← getL num v
+    pure (fun _ => vecFn l.toArray)
+  | none =>
+    match fldOpt j "comps" with
+    | some cs =>
+      let comps ← getL (opOfJson num n) cs
+      pure (sumSquares comps)
+    | none =>
+      let A ← getL (getL num) (← fld j "A")
+      let b ← getL num (← fld j "b")
+      let Aa := (A.map List.toArray).toArray
+      pure (affineOp n (matFn Aa) (vecFn b.toArray))
+
+def getVec (num : Json → Except String K) (j : Json) (k : String) : Except String (Nat → K) := do
+  let l ← getL num (← fld j k)
+  pure (vecFn l.toArray)
+
+/-- class rates: {"cls", "params": {..}, "n", "ops": {name: op}, "state": {name: [..]}} -/
+def rateOf (num : Json → Except String K) (out : K → Json) (j : Json) : Except String Json := do
+  let cls ← fldS j "cls"
+  let n ← fldN j "n"
+  let p ← fld j "params"
+  let ops ← fld j "ops"
+  let st ← fld j "state"
+  let par (k : String) : Except String K := do num (← fld p k)
+  let op (k : String) : Except String (Op Nat K) := do opOfJson num n (← fld ops k)
+  let vec (f : Nat → K) : Json := Json.arr ((tabulate n f).map out).toArray
+  match cls with
+  | "DiffusionPDE" =>
+    pure (Json.mkObj [("c", vec (diffusionRate (← par "diffusivity") (← op "lap_bc") (← getVec num st "c")))])
+  | "AllenCahnPDE" =>
+    pure (Json.mkObj [("c", vec (allenCahnRate (← par "interface_width") (← par "mobility")
+      (← op "lap_bc") (← getVec num st "c")))])
+  | "CahnHilliardPDE" =>
+    pure (Json.mkObj [("c", vec (cahnHilliardRate (← par "interface_width") (← op "lap_c") (← op "lap_mu")
+      (← getVec num st "c")))])
+  | "KPZInterfacePDE" =>
+    pure (Json.mkObj [("c", vec (kpzRate (← par "nu") (← par "lmbda") (← op "lap_bc") (← op "gradsq")
+      (← getVec num st "c")))])
+  | "KuramotoSivashinskyPDE" =>
+    pure (Json.mkObj [("c", vec (ksRate (← par "nu") (← op "lap_bc") (← op "lap_bc_lap") (← op "gradsq")
+      (← getVec num st "c")))])
+  | "SwiftHohenbergPDE" =>
+    pure (Json.mkObj [("c", vec (swiftHohenbergRate (← par "rate") (← par "kc2") (← par "delta")
+      (← op "lap_bc") (← op "lap_bc_lap") (← getVec num st "c")))])
+  | "WavePDE" =>
+    let r := waveRate (← par "speed") (← op "lap_bc") (← getVec num st "u") (← getVec num st "v")
+    pure (Json.mkObj [("u", vec r.1), ("v", vec r.2)])
+  | "KleinGordonPDE" =>
+    let r := kleinGordonRate (← par "speed") (← par "mass") (← op "lap_bc") (← getVec num st "u")
+      (← getVec num st "v")
+    pure (Json.mkObj [("u", vec r.1), ("v", vec r.2)])
+  | _ => throw s!"unknown class {cls}"
+
+/-- field semantics of right-hand sides:
+{"n", "exprs": [[var, AST]..], "fields": [[name, [..]]..], "scalars": [[name, v]..],
+ "ops": [[var, [[opname, op]..]]..]} -> [[var, [..]]..].
+Operator names are looked up per equation (py-pde keys boundary conditions by
+"variable:operator"); every other function name is a local function. -/
+def rhsOf (T : FunTab K) (num : Json → Except String K) (out : K → Json) (j : Json) :
+    Except String Json := do
+  let n ← fldN j "n"
+  let exprs ← getL (pairOfJson exprOfJson) (← fld j "exprs")
+  let fields ← getL (pairOfJson (getL num)) (← fld j "fields")
+  let scalars ← getL (pairOfJson num) (← fld j "scalars")
+  let opsJ ← getL (pairOfJson (getL (pairOfJson (opOfJson num n)))) (← fld j "ops")
+  let env : Env (Fld Nat K) :=
+    { sc := fun s => match fields.lookup s with
+        | some l => ⟨vecFn l.toArray⟩
+        | none => match scalars.lookup s with
+          | some v => ⟨fun _ => v⟩
+          | none => ⟨fun _ => zero⟩,
+      ix := fun _ _ => ⟨fun _ => zero⟩ }
+  let res := exprs.map (fun (var, e) =>
+    let ops : List (String × Op Nat K) := (opsJ.lookup var).getD []
+    let tab : FunTab (Fld Nat K) :=
+      opTab T (fun f => (ops.lookup f).isSome) (fun f => (ops.lookup f).getD id)
+        (fun _ => false) (fun _ x _ => x)
+    let v := (eval tab env e).val
+    Json.arr #[Json.str var, Json.arr ((tabulate n v).map out).toArray])
+  pure (Json.arr res.toArray)
+
+end
+
+instance : Inhabited Rat := ⟨0⟩
+
+def rate (j : Json) : Except String Json := do
+  let mode ← fldS j "mode"
+  if mode == "Q" then rateOf getQ jQ j else rateOf getF jF j
+
+def rhs (j : Json) : Except String Json := do
+  let mode ← fldS j "mode"
+  if mode == "Q" then rhsOf (algTab : FunTab Rat) getQ jQ j else rhsOf floatTab getF jF j
+
+/-- the AST the advertised text must have:
+{"cls", "printed": {name: "decimal text"}, "flags": {name: bool}} -> AST (or {"u":..,"v":..}) -/
+def template (j : Json) : Except String Json := do
+  let cls ← fldS j "cls"
+  let p ← fld j "printed"
+  let ac ← fld j "actual"
+  let fl ← fld j "flags"
+  let par (k : String) : Except String Fac := do pure ⟨← getQ (← fld ac k), ← getQ (← fld p k)⟩
+  let flag (k : String) : Except String Bool := do getB (← fld fl k)
+  match cls with
+  | "DiffusionPDE" => pure (exprToJson (diffusionExpr (← par "diffusivity")))
+  | "AllenCahnPDE" =>
+    pure (exprToJson (allenCahnExpr (← par "interface_width") (← par "mobility") (← flag "mobility_is_one")))
+  | "CahnHilliardPDE" => pure (exprToJson (cahnHilliardExpr (← par "interface_width")))
+  | "KPZInterfacePDE" => pure (exprToJson (kpzExpr (← par "nu") (← par "lmbda")))
+  | "KuramotoSivashinskyPDE" => pure (exprToJson (ksExpr (← par "nu")))
+  | "SwiftHohenbergPDE" =>
+    pure (exprToJson (swiftHohenbergExpr (← par "a") (← par "delta") (← par "two_kc2")))
+  | "WavePDE" =>
+    let r := waveExprs (← par "speed2")
+    pure (Json.mkObj [("u", exprToJson r.1), ("v", exprToJson r.2)])
+  | "KleinGordonPDE" =>
+    let r := kleinGordonExprs (← par "speed2") (← par "mass2") (← flag "mass_is_zero")
+    pure (Json.mkObj [("u", exprToJson r.1), ("v", exprToJson r.2)])
+  | _ => throw s!"unknown class {cls}"
+
+def handlers : List (String × Handler) :=
+  [("c10.rate", rate), ("c10.rhs", rhs), ("c10.template", template)]
 end PdeVerif.Drv.C10
